@@ -6,6 +6,7 @@ vars == <<l, bad>>
 HasNul(s) == \E i \in 1..Len(s) : s[i] = 0
 OkFormat(e) ==
   /\ e.ub = 0
+  /\ e.hist = 1          \* the same call gave the same text after an unrelated call (C14: no history)
   \* a stretch that goes to strftime and contains a NUL has no recorded answer (a C string cannot carry it): the format
   \* is then undetermined; NUL bytes in ordinary text between library-rendered specifiers are ordinary bytes
   /\ LET r == FormatOut(e.fmt, [cs |-> e.cs, off |-> e.off, abbr |-> e.abbr], e.fs, e.t, e.env) IN
